@@ -284,6 +284,8 @@ class Matcher:
             da = d[1:]
             if op == 'discr':
                 da = da[:1]
+            if op == 'itervar' and len(pa) == 1:
+                da = da[:1]        # (itervar SRC) ignores the loop identity; (itervar SRC $id) binds it
             if op == 'loop':
                 yield env
                 return
